@@ -271,3 +271,19 @@ Theorem nested_beyond_limit_refused : forall carry lim g d m, (lim < d)%nat ->
   ante_nested carry lim g [wrap d m] = false.
 Proof. intros carry lim g d m H. unfold ante_nested. cbn [flat_list]. rewrite flat_wrap_beyond by exact H. reflexivity. Qed.
 Print Assumptions nested_beyond_limit_refused.
+
+(** ---- seventh round ---- *)
+
+(** The decorator holds nothing but the feegrant keeper (struct fields and package-level variables of
+    x/paloma/ante.go inventoried on every run): it cannot remember a grant that the store no longer has. *)
+Theorem decorator_has_no_memory : Gen.C03.decorator_extra_fields = [].
+Proof. exact decorator_has_no_memory_lemma. Qed.
+Print Assumptions decorator_has_no_memory.
+
+(** A token denom whose admin role was renounced is never administered again, over every history
+    (creations of the same subdenom, admin changes, genesis round trips included). *)
+Theorem renounced_stays_renounced : forall auth ops s d,
+  (forall op, In op ops -> signer auth op <> Some 0) ->
+  admin_of s d = Some 0 -> admin_of (orun Gen.C03.code_shape ops s) d = Some 0.
+Proof. exact renounced_stays_renounced_lemma. Qed.
+Print Assumptions renounced_stays_renounced.
